@@ -407,6 +407,14 @@ func (vc *VC) resolveType(env *Env, text string) types.Type {
 					return t
 				}
 			}
+			// contracts of library functions kept outside any package: the
+			// package of the function under verification (where the call is)
+			if top := vc.Fn; top != nil && top != env.fn {
+				alt := *env
+				alt.fn = top
+				alt.specFile = ""
+				return vc.resolveType(&alt, text)
+			}
 			return nil
 		}
 	}
@@ -633,6 +641,10 @@ func (vc *VC) evalSpecCall(env *Env, x *SCall) Val {
 		return vc.specErr("fresh of %s", v.Typ)
 	case "base":
 		return Val{T: App("sl.base", arg(0).T), Typ: types.Typ[types.UnsafePointer]}
+	case "notypednil":
+		// notypednil(x): interface x is nil or holds a non-nil pointer (no typed nil inside)
+		v := arg(0)
+		return Val{T: Or(Eq(App("if.tag", v.T), "0"), Not(Eq(App("if.ptr", v.T), "Null"))), Typ: boolT}
 	case "as":
 		// as(x, "T"): the dynamic value of interface x viewed as a T (meaningful when typeis(x, "T"))
 		v := arg(0)
